@@ -337,6 +337,9 @@ class Report:
     def violation(self, kind, name, inp, **kw):
         v = {"property": self.prop, "kind": kind, "name": name, "input": inp}
         v.update(kw)
+        # part of every replay: the harness answers on a thread that has already built (and failed to build) other patterns
+        v.setdefault("history", "answered by the harness (batches of 8 requests or more) after its fixed warm-up on the same thread: failed builds `{`, `a//b`, `<a*:1000000>` (oversized), "
+                                "a successful build of `src/**/*.rs` with a match, a partition and a short walk (harness/src/main.rs; WAXH_FRESH=1 disables it)")
         self.violations.append(v)
 
     def known(self, fid, line):
